@@ -326,6 +326,20 @@ pub mod cases {
             B ::= INTEGER (1..5, ...)
             END"],
             checks: &[AttrsHave("pubstructA(", "value(\"1..=5\",extensible)"), AttrsHave("pubstructB(", "value(\"1..=5\",extensible)")] },
+        // ---- C04 (fix 29): `<` next to an endpoint excludes the endpoint (X.680 51.4.2); found through side remarks of two round-16 agents
+        Case { ob: "C04.cases.excluded_literal_endpoint_is_not_part_of_the_bound", srcs: &["M DEFINITIONS AUTOMATIC TAGS ::= BEGIN
+            A ::= INTEGER (0..<256)
+            B ::= INTEGER (0<..10)
+            S ::= SEQUENCE { f INTEGER (-1<..<256), g OCTET STRING (SIZE (1..<5)) }
+            END"],
+            checks: &[AttrsHave("pubstructA(", "value(\"0..=255\")"), Has("pubstructA(pubu8)"), AttrsHave("pubstructB(", "value(\"1..=10\")"),
+                      ItemHas("pubstructS{", "#[rasn(value(\"0..=255\"))]pubf:u8"), ItemHas("pubstructS{", "#[rasn(size(\"1..=4\"))]pubg:OctetString")] },
+        // known finding: the same with a value reference as the excluded endpoint (the IR has no place for the exclusion)
+        Case { ob: "C04.cases.excluded_referenced_endpoint_is_not_part_of_the_bound", srcs: &["M DEFINITIONS AUTOMATIC TAGS ::= BEGIN
+            max-nb INTEGER ::= 256
+            A ::= INTEGER (0..<max-nb)
+            END"],
+            checks: &[AttrsHave("pubstructA(", "value(\"0..=255\")")] },
         Case { ob: "C05.cases.components_of_after_the_marker_are_extension_additions", srcs: &["M DEFINITIONS AUTOMATIC TAGS ::= BEGIN
             B ::= SEQUENCE { b1 BOOLEAN }
             A ::= SEQUENCE { a1 INTEGER, ..., COMPONENTS OF B }
